@@ -164,3 +164,343 @@ Proof. intro W. unfold str_tree. rewrite run_flatten by exact W. symmetry. apply
 
 Lemma str_is_pp ps t tr : parse t = Some tr -> str_tree ps t = pp ps tr.
 Proof. intro H. destruct (parse_sound _ _ H) as [-> W]. now apply str_flatten. Qed.
+
+(* ------------------------------------------------------------------ printable trees *)
+(* names are Python identifiers; constants print as a separator-free atom that evaluates back *)
+Definition node_ok (ps : pset) (n : node) : Prop :=
+  match n with
+  | NPrim name _ _ => is_ident name = true
+  | NArg j _ => is_ident (nth j (ps_argvalue ps) "") = true
+  | NSym name _ => is_ident name = true
+  | NConst c _ => atom_ok (repr c) = true /\ lit (repr c) = Some c
+  | NClass _ _ => False
+  end.
+
+Definition all_nodes (P : node -> Prop) (tr : tree) : Prop := Forall P (flatten tr).
+
+Lemma all_nodes_inv P n kids : all_nodes P (T n kids) <-> P n /\ Forall (all_nodes P) kids.
+Proof. unfold all_nodes; cbn. rewrite Forall_cons_iff, Forall_flat_map. reflexivity. Qed.
+
+Lemma node_tok_ok ps n : node_ok ps n -> atom_ok (node_tok ps n) = true.
+Proof.
+  destruct n; cbn; intro H; try (apply ident_atom_ok; exact H); [tauto|contradiction].
+Qed.
+
+Lemma wf_terminal n kids : wf_tree (T n kids) -> node_arity n = Some 0 -> kids = [].
+Proof.
+  intros W H. destruct (wf_tree_inv _ _ W) as [A _]. rewrite H in A. injection A as A.
+  destruct kids; [reflexivity|discriminate].
+Qed.
+
+(* ------------------------------------------------------------------ lexing the printed form *)
+Fixpoint join_lex (l : list (list lexeme)) : list lexeme :=
+  match l with
+  | [] => []
+  | x :: r => match r with [] => x | _ :: _ => x ++ LComma :: join_lex r end
+  end.
+
+Fixpoint lexemes (ps : pset) (tr : tree) : list lexeme :=
+  match tr with
+  | T (NPrim name _ _) kids => LAtom name :: LOpen :: join_lex (map (lexemes ps) kids) ++ [LClose]
+  | T n _ => [LAtom (fmt ps n [])]
+  end.
+
+Lemma prim_shape (name J rest : string) :
+  ((name ++ "(" ++ J ++ ")") ++ rest)%string = (name ++ String "(" (J ++ String ")" rest))%string.
+Proof. rewrite app_assoc_s. f_equal. cbn. f_equal. now rewrite app_assoc_s. Qed.
+
+Lemma comma_shape (a C R : string) :
+  ((a ++ ", " ++ C) ++ R)%string = (a ++ String "," (String " " (C ++ R)))%string.
+Proof. rewrite app_assoc_s. f_equal. Qed.
+
+Definition lex_ok ps (tr : tree) : Prop :=
+  wf_tree tr -> all_nodes (node_ok ps) tr ->
+  forall rest, starts_sep rest = true -> lex (pp ps tr ++ rest)%string = lexemes ps tr ++ lex rest.
+
+Lemma lex_args ps kids :
+  Forall (lex_ok ps) kids -> Forall wf_tree kids -> Forall (all_nodes (node_ok ps)) kids ->
+  forall rest,
+    lex (String.concat ", " (map (pp ps) kids) ++ String ")" rest)%string =
+    join_lex (map (lexemes ps) kids) ++ LClose :: lex rest.
+Proof.
+  induction kids as [|k ks IH]; intros HP HW HO rest.
+  - cbn. apply lex_close.
+  - inversion HP as [|? ? Pk Pks]; inversion HW as [|? ? Wk Wks]; inversion HO as [|? ? Ok Oks]; subst.
+    destruct ks as [|k2 ks2].
+    + cbn [map String.concat join_lex]. rewrite (Pk Wk Ok) by reflexivity. now rewrite lex_close.
+    + change (String.concat ", " (map (pp ps) (k :: k2 :: ks2)))
+        with (pp ps k ++ ", " ++ String.concat ", " (map (pp ps) (k2 :: ks2)))%string.
+      rewrite comma_shape, (Pk Wk Ok) by reflexivity.
+      rewrite lex_comma, lex_space, (IH Pks Wks Oks).
+      cbn [map join_lex]. now rewrite <- app_assoc.
+Qed.
+
+Lemma lex_pp ps tr : lex_ok ps tr.
+Proof.
+  induction tr as [n kids IH] using tree_ind'. intros W OK rest Hr.
+  apply all_nodes_inv in OK as [On Ok]. destruct (wf_tree_inv _ _ W) as [Har Wk].
+  destruct n as [name args ret|j r|name r|c r|name r];
+    try (cbn [pp lexemes]; rewrite lex_atom_app; [reflexivity|apply (node_tok_ok ps _ On)|exact Hr]).
+  - cbn [pp lexemes]. rewrite prim_shape, lex_atom_app; [|apply ident_atom_ok; exact On|reflexivity].
+    rewrite lex_open, (lex_args ps kids IH Wk Ok). cbn. now rewrite <- app_assoc.
+  - contradiction.
+Qed.
+
+Lemma lex_pp0 ps tr : wf_tree tr -> all_nodes (node_ok ps) tr -> lex (pp ps tr) = lexemes ps tr.
+Proof.
+  intros W O. rewrite <- (app_nil_r_s (pp ps tr)), (lex_pp ps tr W O "") by reflexivity.
+  cbn. apply app_nil_r.
+Qed.
+
+Lemma atoms_join ps kids :
+  Forall (fun k => atoms (lexemes ps k) = map (node_tok ps) (flatten k)) kids ->
+  atoms (join_lex (map (lexemes ps) kids)) = map (node_tok ps) (flat_map flatten kids).
+Proof.
+  induction 1 as [|k ks Hk _ IH]; [reflexivity|]. cbn [map flat_map]. rewrite map_app, <- Hk, <- IH.
+  destruct ks as [|k2 ks2]; cbn [map join_lex].
+  - cbn. now rewrite app_nil_r.
+  - rewrite atoms_app. reflexivity.
+Qed.
+
+Lemma atoms_lexemes ps tr : wf_tree tr -> atoms (lexemes ps tr) = map (node_tok ps) (flatten tr).
+Proof.
+  induction tr as [n kids IH] using tree_ind'. intro W. destruct (wf_tree_inv _ _ W) as [Har Wk].
+  destruct n as [name args ret|j r|name r|c r|name r];
+    try (rewrite (wf_terminal _ _ W eq_refl); reflexivity); [|discriminate].
+  cbn [lexemes atoms flatten map node_tok]. rewrite atoms_app. cbn [atoms]. rewrite app_nil_r. f_equal.
+  apply atoms_join. clear - IH Wk. induction IH; inversion Wk; subst; constructor; auto.
+Qed.
+
+(* the tokens from_string sees for a printed tree: one per node, in prefix order *)
+Lemma tokenize_pp ps tr : wf_tree tr -> all_nodes (node_ok ps) tr ->
+  tokenize (pp ps tr) = map (node_tok ps) (flatten tr).
+Proof. intros W O. now rewrite tokenize_lex, lex_pp0, atoms_lexemes. Qed.
+
+(* ------------------------------------------------------------------ reading the printed form back *)
+(* same terminal up to the declared type (from_string gives a constant the type of its slot) *)
+Definition term_equiv (n n' : node) : Prop :=
+  match n, n' with
+  | NArg j _, NArg j' _ => j = j'
+  | NSym a _, NSym b _ => a = b
+  | NConst c _, NConst c' _ => c = c'
+  | _, _ => False
+  end.
+
+Definition node_equiv (n n' : node) : Prop :=
+  match n with
+  | NPrim _ _ _ => n' = n
+  | _ => term_equiv n n'
+  end.
+
+Inductive tree_equiv : tree -> tree -> Prop :=
+| te_node n n' kids kids' :
+    node_equiv n n' -> Forall2 tree_equiv kids kids' -> tree_equiv (T n kids) (T n' kids').
+
+Lemma node_equiv_arity n n' : node_equiv n n' -> node_arity n' = node_arity n.
+Proof. destruct n, n'; cbn; try contradiction; try discriminate; intro H; try reflexivity; now inversion H. Qed.
+
+Lemma node_equiv_fmt ps n n' : node_equiv n n' -> forall a, fmt ps n' a = fmt ps n a.
+Proof.
+  destruct n, n'; cbn; try contradiction; try discriminate; intros H a; try reflexivity;
+    try (now inversion H); now subst.
+Qed.
+
+Section ReadFacts.
+  Variable sub : ty -> ty -> bool.
+  Variable ps : pset.
+  Hypothesis sub_refl : forall a, sub a a = true.
+  Hypothesis sub_trans : forall a b c, sub a b = true -> sub b c = true -> sub a c = true.
+
+  Notation mapping := (ps_mapping ps).
+
+  (* the printed token of the node leads from_string back to the node: a primitive is registered under its
+     name; a terminal is either registered under its printed form (possibly another terminal object that
+     prints alike and is usable wherever this one is), or is a constant that evaluates back *)
+  Definition resolvable (n : node) : Prop :=
+    match n with
+    | NPrim name _ _ => dget name mapping = Some n
+    | NClass _ _ => False
+    | _ => (exists n', dget (node_tok ps n) mapping = Some n' /\ term_equiv n n'
+                       /\ sub (node_ret n') (node_ret n) = true)
+           \/ (dget (node_tok ps n) mapping = None /\
+               exists c r, n = NConst c r /\ lit (repr c) = Some c /\ sub (typeof c) r = true)
+    end.
+
+  (* every argument is acceptable where it stands (what C11 establishes for generated trees) *)
+  Inductive typed : tree -> Prop :=
+  | ty_node n kids :
+      (forall name args ret, n = NPrim name args ret ->
+         Forall2 (fun k a => sub (node_ret (root k)) a = true) kids args) ->
+      Forall typed kids -> typed (T n kids).
+
+  Definition expect_ok (n : node) (rts : list ty) : Prop :=
+    match rts with [] => True | t :: _ => sub (node_ret n) t = true end.
+
+  Lemma read_loop_cons tok r rts acc :
+    read_loop sub mapping (tok :: r) rts acc =
+    if negb (nonempty tok) then read_loop sub mapping r rts acc else
+    let type_ := match rts with [] => None | t :: _ => Some t end in
+    let rt := match rts with [] => [] | _ :: q => q end in
+    match dget tok mapping with
+    | Some prim =>
+        if match type_ with Some t => negb (sub (node_ret prim) t) | None => false end then None
+        else read_loop sub mapping r (match prim with NPrim _ args _ => args ++ rt | _ => rt end) (prim :: acc)
+    | None =>
+        match lit tok with
+        | None => None
+        | Some c =>
+            let t := match type_ with Some t => t | None => typeof c end in
+            if sub (typeof c) t then read_loop sub mapping r rt (NConst c t :: acc) else None
+        end
+    end.
+  Proof. reflexivity. Qed.
+
+  Lemma read_terminal n more rts acc :
+    node_arity n = Some 0 -> (forall a b c, n <> NPrim a b c) ->
+    node_ok ps n -> resolvable n -> expect_ok n rts ->
+    exists n', node_equiv n n' /\
+      read_loop sub mapping (node_tok ps n :: more) rts acc =
+      read_loop sub mapping more (tl rts) (n' :: acc).
+  Proof.
+    intros Har Hnp Hok Hres Hex. rewrite read_loop_cons.
+    pose proof (node_tok_ok ps n Hok) as Hat. unfold atom_ok in Hat. apply andb_true_iff in Hat as [Hne _].
+    rewrite Hne. cbn [negb].
+    assert (Hres' : (exists n', dget (node_tok ps n) mapping = Some n' /\ term_equiv n n'
+                       /\ sub (node_ret n') (node_ret n) = true)
+           \/ (dget (node_tok ps n) mapping = None /\
+               exists c r, n = NConst c r /\ lit (repr c) = Some c /\ sub (typeof c) r = true)).
+    { destruct n; cbn in Hres; try exact Hres; try contradiction. exfalso; eapply Hnp; reflexivity. }
+    assert (Hne' : node_equiv n = term_equiv n).
+    { destruct n; try reflexivity. exfalso; eapply Hnp; reflexivity. }
+    destruct Hres' as [(n' & Hg & He & Hs)|(Hg & c & r & -> & Hl & Hs)].
+    - exists n'. rewrite Hne'. split; [exact He|]. rewrite Hg.
+      assert ((match match rts with [] => None | t :: _ => Some t end with
+               | Some t => negb (sub (node_ret n') t) | None => false end) = false) as ->.
+      { destruct rts as [|t q]; [reflexivity|]. cbn in Hex. rewrite (sub_trans _ _ _ Hs Hex). reflexivity. }
+      destruct n, n'; cbn in He; try contradiction; try reflexivity; destruct rts; reflexivity.
+    - cbn [node_tok fmt] in *. rewrite Hg, Hl.
+      destruct rts as [|t q].
+      + exists (NConst c (typeof c)). split; [reflexivity|]. cbn. now rewrite sub_refl.
+      + exists (NConst c t). split; [reflexivity|]. cbn in Hex |- *. now rewrite (sub_trans _ _ _ Hs Hex).
+  Qed.
+
+  Definition read_ok (tr : tree) : Prop :=
+    wf_tree tr -> all_nodes (node_ok ps) tr -> all_nodes resolvable tr -> typed tr ->
+    forall rts more acc, expect_ok (root tr) rts ->
+    exists tr', tree_equiv tr tr' /\
+      read_loop sub mapping (map (node_tok ps) (flatten tr) ++ more) rts acc =
+      read_loop sub mapping more (tl rts) (rev (flatten tr') ++ acc).
+
+  Lemma read_forest ks :
+    Forall read_ok ks -> Forall wf_tree ks -> Forall (all_nodes (node_ok ps)) ks ->
+    Forall (all_nodes resolvable) ks -> Forall typed ks ->
+    forall tys, Forall2 (fun k a => sub (node_ret (root k)) a = true) ks tys ->
+    forall rt more acc,
+    exists ks', Forall2 tree_equiv ks ks' /\
+      read_loop sub mapping (map (node_tok ps) (flat_map flatten ks) ++ more) (tys ++ rt) acc =
+      read_loop sub mapping more rt (rev (flat_map flatten ks') ++ acc).
+  Proof.
+    intros HP HW HO HR HT tys H2. revert HP HW HO HR HT.
+    induction H2 as [|k ty ks tys Hk _ IH]; intros HP HW HO HR HT rt more acc.
+    - exists []. split; [constructor|reflexivity].
+    - inversion HP; inversion HW; inversion HO; inversion HR; inversion HT; subst.
+      cbn [flat_map]. rewrite map_app, <- app_assoc. cbn [app].
+      destruct (H1 H5 H9 H13 H17 (ty :: tys ++ rt) (map (node_tok ps) (flat_map flatten ks) ++ more) acc Hk)
+        as (k' & Ek & Rk).
+      rewrite Rk. cbn [tl].
+      destruct (IH H2 H6 H10 H14 H18 rt more (rev (flatten k') ++ acc)) as (ks' & Eks & Rks).
+      exists (k' :: ks'). split; [constructor; assumption|]. rewrite Rks. cbn [flat_map].
+      now rewrite rev_app_distr, <- app_assoc.
+  Qed.
+
+  Lemma read_tree tr : read_ok tr.
+  Proof.
+    induction tr as [n kids IH] using tree_ind'. intros W OK RS TY rts more acc Hex.
+    apply all_nodes_inv in OK as [On Ok]. apply all_nodes_inv in RS as [Rn Rk].
+    destruct (wf_tree_inv _ _ W) as [Har Wk]. inversion TY as [? ? Targs Tk]; subst.
+    destruct n as [name args ret|j r|name r|c r|name r].
+    - (* primitive *)
+      cbn [flatten map app root] in *. rewrite read_loop_cons.
+      pose proof (ident_atom_ok _ On) as Hat. unfold atom_ok in Hat. apply andb_true_iff in Hat as [Hne _].
+      cbn [node_tok]. rewrite Hne. cbn [negb]. cbn in Rn. rewrite Rn. cbn [node_ret].
+      assert ((match match rts with [] => None | t :: _ => Some t end with
+               | Some t => negb (sub ret t) | None => false end) = false) as ->.
+      { destruct rts as [|t q]; [reflexivity|]. cbn in Hex. now rewrite Hex. }
+      destruct (read_forest kids IH Wk Ok Rk Tk args (Targs _ _ _ eq_refl)
+                  (match rts with [] => [] | _ :: q => q end) more (NPrim name args ret :: acc))
+        as (ks' & Eks & Rks).
+      exists (T (NPrim name args ret) ks'). split; [constructor; [reflexivity|exact Eks]|].
+      rewrite Rks. cbn [flatten rev]. rewrite <- app_assoc. destruct rts; reflexivity.
+    - rewrite (wf_terminal _ _ W eq_refl). cbn [flatten flat_map map app].
+      destruct (read_terminal (NArg j r) more rts acc eq_refl ltac:(discriminate) On Rn Hex) as (n' & En & Rn').
+      exists (T n' []). split; [constructor; [exact En|constructor]|]. exact Rn'.
+    - rewrite (wf_terminal _ _ W eq_refl). cbn [flatten flat_map map app].
+      destruct (read_terminal (NSym name r) more rts acc eq_refl ltac:(discriminate) On Rn Hex) as (n' & En & Rn').
+      exists (T n' []). split; [constructor; [exact En|constructor]|]. exact Rn'.
+    - rewrite (wf_terminal _ _ W eq_refl). cbn [flatten flat_map map app].
+      destruct (read_terminal (NConst c r) more rts acc eq_refl ltac:(discriminate) On Rn Hex) as (n' & En & Rn').
+      exists (T n' []). split; [constructor; [exact En|constructor]|]. exact Rn'.
+    - contradiction.
+  Qed.
+
+  Lemma read_loop_filter l : forall rts acc,
+    read_loop sub mapping l rts acc = read_loop sub mapping (filter nonempty l) rts acc.
+  Proof.
+    induction l as [|tok r IH]; intros rts acc; [reflexivity|].
+    cbn [filter]. destruct (nonempty tok) eqn:E.
+    - rewrite !read_loop_cons, E. cbn [negb].
+      destruct (dget tok mapping) as [prim|].
+      + destruct (match match rts with [] => None | t :: _ => Some t end with
+                  | Some t => negb (sub (node_ret prim) t) | None => false end); [reflexivity|apply IH].
+      + destruct (lit tok); [|reflexivity]. cbv zeta.
+        destruct (sub (typeof c) _); [apply IH|reflexivity].
+    - rewrite read_loop_cons, E. cbn [negb]. apply IH.
+  Qed.
+
+  Lemma read_print_tree tr :
+    wf_tree tr -> all_nodes (node_ok ps) tr -> all_nodes resolvable tr -> typed tr ->
+    exists tr', tree_equiv tr tr' /\ read sub mapping (str_tree ps (flatten tr)) = Some (flatten tr').
+  Proof.
+    intros W O R Ty. destruct (read_tree tr W O R Ty [] [] [] I) as (tr' & E & H).
+    exists tr'. split; [exact E|]. unfold read. rewrite read_loop_filter.
+    fold (tokenize (str_tree ps (flatten tr))). rewrite str_flatten, tokenize_pp by assumption.
+    rewrite app_nil_r in H. rewrite H. cbn. now rewrite app_nil_r, rev_involutive.
+  Qed.
+End ReadFacts.
+
+(* what the tree read back shares with the original *)
+Lemma tree_equiv_wf tr : forall tr', tree_equiv tr tr' -> wf_tree tr -> wf_tree tr'.
+Proof.
+  induction tr as [n kids IH] using tree_ind'. intros tr' E W. inversion E as [? n' ? kids' En Ek]; subst.
+  destruct (wf_tree_inv _ _ W) as [Har Wk]. apply wf_tree_intro.
+  - rewrite (node_equiv_arity _ _ En), Har. f_equal. clear - Ek. induction Ek; cbn; auto.
+  - clear - IH Ek Wk. induction Ek; inversion IH; inversion Wk; subst; constructor; auto.
+Qed.
+
+Lemma tree_equiv_pp ps tr : forall tr', tree_equiv tr tr' -> pp ps tr' = pp ps tr.
+Proof.
+  induction tr as [n kids IH] using tree_ind'. intros tr' E. inversion E as [? n' ? kids' En Ek]; subst.
+  rewrite !pp_fold. cbn [foldT]. rewrite (node_equiv_fmt ps _ _ En). f_equal.
+  clear - IH Ek. induction Ek; inversion IH; subst; cbn [map]; [reflexivity|].
+  f_equal; [rewrite <- !pp_fold; auto|auto].
+Qed.
+
+Lemma tree_equiv_shape tr : forall tr', tree_equiv tr tr' ->
+  map node_arity (flatten tr') = map node_arity (flatten tr).
+Proof.
+  induction tr as [n kids IH] using tree_ind'. intros tr' E. inversion E as [? n' ? kids' En Ek]; subst.
+  cbn [flatten map]. rewrite (node_equiv_arity _ _ En). f_equal.
+  clear - IH Ek. induction Ek; inversion IH; subst; cbn [flat_map]; [reflexivity|].
+  rewrite !map_app. f_equal; auto.
+Qed.
+
+Lemma tree_equiv_eval {V} (cval : cst -> option V) ctx actuals tr :
+  forall tr', tree_equiv tr tr' -> eval_tree cval ctx actuals tr' = eval_tree cval ctx actuals tr.
+Proof.
+  induction tr as [n kids IH] using tree_ind'. intros tr' E. inversion E as [? n' ? kids' En Ek]; subst.
+  destruct n, n'; cbn in En; try contradiction; try discriminate; try (subst; reflexivity).
+  injection En as -> -> ->. cbn [eval_tree]. destruct (dget name ctx) as [[v|g]|]; try reflexivity.
+  match goal with |- match ?a with _ => _ end = match ?b with _ => _ end => assert (a = b) as ->; [|reflexivity] end.
+  clear - IH Ek. induction Ek; inversion IH; subst; [reflexivity|].
+  rewrite (H2 _ H). destruct (eval_tree cval ctx actuals x); [|reflexivity]. now rewrite IHEk.
+Qed.
